@@ -379,11 +379,11 @@ func TestVerifC15(t *testing.T) {
 		"\xef\xbb\xbfPRAGMA synchronous=1", "PRAGMA synchronous\x00=3", "PRAGMA\x0bsynchronous=3"} {
 		texts = append(texts, c15Text{sql: s, features: c15FeaturesOf(s)})
 	}
-	n := vfScale(1500, 40000)
+	n := vfScale(900, 40000)
 	for i := 0; i < n; i++ {
 		texts = append(texts, c15Gen(r))
 	}
-	nm := vfScale(500, 15000)
+	nm := vfScale(300, 15000)
 	for i := 0; i < nm; i++ {
 		g := c15Gen(r)
 		texts = append(texts, c15Text{sql: c15Mutate(r, g.sql), features: append(g.features, "mutated")})
